@@ -84,15 +84,18 @@ def read_macros(repo_src):
 
 
 class TEmit:
-    def __init__(self, env, members=None, forces=None, skip_calls=()):
+    def __init__(self, env, members=None, forces=None, skip_calls=(), parent=None):
         self.env = dict(env)            # C++ name -> (lean text, type)
         self.members = dict(members or {})   # class member name -> (lean text, type)
-        self.ver = {}
-        self.lines = []
+        self.ver = parent.ver if parent else {}
+        self.lines = parent.lines if parent else []
         self.forces = forces or {}      # object lean text (e.g. 'f_n1') -> accumulator C++ pseudo-variable
         self.skip_calls = set(skip_calls)
-        self.skipped = []
-        self.top = True
+        self.skipped = parent.skipped if parent else []
+        self.top = parent is None
+        # names declared inside the branch being translated (and inside the branches around it): their
+        # definitions are hoisted in front of the `if` as plain `let`s (all right-hand sides are pure)
+        self.scope = set(parent.scope) if parent else set()
 
     # ---------------------------------------------------------------- coercions
     def co(self, t, ty, want):
@@ -315,13 +318,10 @@ class TEmit:
         if ty.startswith("O:") or ty == "U":
             self.env[name] = (t, ty)
             return
-        if self.top:
+        if self.top or name in self.scope:
             v = self.fresh(name)
             self.lines.append("  let %s := %s" % (v, t))
-            if ty == "T":
-                self.env[name] = (v, "T")
-            else:
-                self.env[name] = (v, ty)
+            self.env[name] = (v, ty)
         else:
             self.env[name] = (t, ty)
 
@@ -338,6 +338,8 @@ class TEmit:
                 self.stmt(x)
             return
         if k == "let":
+            if not self.top:
+                self.scope.add(s[1])
             if s[2] is None:
                 self.env[s[1]] = (None, self.decl_types.get(s[1], "R"))
                 return
@@ -351,6 +353,8 @@ class TEmit:
             t, ty = self.ex(s[2])
             if ty != "T" or len(s[1]) != 2:
                 raise TranslateError("structured binding")
+            if not self.top:
+                self.scope.add("kernel_result")
             self.assign("kernel_result", t, "T")
             v = self.env["kernel_result"][0]
             self.env[s[1][0]] = ("%s.1" % v, "R")
@@ -397,18 +401,25 @@ class TEmit:
         raise TranslateError("statement kind %s" % k)
 
     def branch(self, stmts):
-        sub = TEmit(self.env, self.members, self.forces, self.skip_calls)
+        sub = type(self)(self.env, self.members, self.forces, self.skip_calls, parent=self)
         sub.decl_types = self.decl_types
-        sub.top = False
+        for hook in ("member", "mcall", "index", "call"):
+            if hook in self.__dict__:
+                setattr(sub, hook, self.__dict__[hook])
         for x in stmts:
             sub.stmt(x)
-        self.skipped += sub.skipped
         return sub.env
 
     def if_stmt(self, s):
         c = self.co(*(self.ex(s[1]) + ("P",)))
         th = s[2][1] if s[2][0] == "block" else [s[2]]
         el = [] if s[3] is None else (s[3][1] if s[3][0] == "block" else [s[3]])
+        # `if (c) { b = !b; }` on a bool variable: b := xor b (decide c)
+        if not el and len(th) == 1 and th[0][0] == "assign" and th[0][2] == "=" and th[0][1][0] == "id" \
+                and th[0][3] == ("un", "!", th[0][1]) and self.env.get(th[0][1][1], (None, None))[1] == "B":
+            name = th[0][1][1]
+            self.assign(name, "(xor %s (decide %s))" % (self.env[name][0], c), "B")
+            return
         e1 = self.branch(th)
         e2 = self.branch(el)
         for name in list(self.env.keys()):
